@@ -65,7 +65,7 @@ enum Out {
 }
 
 fn run_real<H: Header>(slice: &[u8], hsz: usize) -> Out {
-    let r = mb2_sandbox::catch(|| DynSizedStructure::<H>::ref_from_slice(slice));
+    let r = mb2_model::panics::catch(|| DynSizedStructure::<H>::ref_from_slice(slice));
     match r {
         None => Out::Panic,
         Some(Err(e)) => Out::Err(e),
